@@ -269,7 +269,8 @@ def mutate(patch, pids, tier="quick"):
             dst = os.path.join(scratch, crate)
             shutil.copytree(src, dst, ignore=shutil.ignore_patterns("target"))
             ct = os.path.join(dst, "Cargo.toml")
-            open(ct, "w").write(open(ct).read().replace('"/repo/', '"' + repo2 + '/'))
+            txt = open(ct).read().replace('"/repo/', '"' + repo2 + '/')
+            open(ct, "w").write(txt)
             cfg = os.path.join(dst, ".cargo", "config.toml")
             if os.path.exists(cfg):
                 open(cfg, "w").write("[net]\noffline = true\n")
@@ -289,7 +290,20 @@ def mutate(patch, pids, tier="quick"):
         for pid in pids:
             shutil.rmtree(os.path.join(CACHE, "cases", pid + tag), ignore_errors=True)
             shutil.rmtree(os.path.join(ROOT, "replays", pid + tag), ignore_errors=True)
+    why = {}
+    for pid in pids:
+        try:
+            ev = json.load(open(os.path.join(CACHE, "mut_evidence", pid + tag + ".json")))
+            c = ev["coverage"]
+            why[pid] = "oracle_failures/violations=%s mismatches=%s no_longer_checks=%s cases=%s" % (
+                ev.get("violations"), c.get("model_vs_impl_mismatches"), [w[:90] for w in c.get("no_longer_checks", [])][:3], c.get("evaluations"))
+        except Exception as ex:
+            why[pid] = "no evidence (%s)" % ex
     print("mutate %s: %s" % (os.path.basename(patch), {k: ("DETECTED" if v else "missed") for k, v in rcs.items()}))
+    for pid in pids:
+        print("  %s: %s" % (pid, why[pid]))
+        if "harness does not build" in why[pid] or "cases=0" in why[pid]:
+            print("  WARNING: detection for %s is because the harness did not build/run against the mutated copy — not a genuine detection unless the mutation changes an API" % pid)
     return 0
 
 
